@@ -445,6 +445,57 @@ Proof. intros H Hc n Hn. apply H. now apply (sub_step n c v). Qed.
 Lemma consistent_self v id : consistent v -> id_of v = Some id -> m id = v.
 Proof. intros H. apply H. constructor. Qed.
 
+(* consistent, constructor by constructor *)
+Lemma consistent_intro v :
+  (forall id, id_of v = Some id -> m id = v) -> (forall c, child c v -> consistent c) -> consistent v.
+Proof.
+  intros Hself Hch n Hn. inversion Hn as [|c v' Hc Hs]; subst.
+  - exact (Hself).
+  - exact (Hch c Hc n Hs).
+Qed.
+
+Lemma consistent_untagged_leaf v :
+  match v with VUndef | VBool _ | VInt _ | VFloat _ | VStr _ | VDefault => True | _ => False end -> consistent v.
+Proof.
+  intros Hv. apply consistent_intro.
+  - destruct v; cbn; try discriminate; contradiction.
+  - intros c Hc. destruct v; try contradiction; inversion Hc.
+Qed.
+
+Lemma consistent_bin id p disp : m id = VBin id p disp -> consistent (VBin id p disp).
+Proof. intros Hm. apply consistent_intro; [intros id' [= <-]; exact Hm|intros c Hc; inversion Hc]. Qed.
+
+Lemma consistent_rich id tn l2 p disp : m id = VRich id tn l2 p disp -> consistent (VRich id tn l2 p disp).
+Proof. intros Hm. apply consistent_intro; [intros id' [= <-]; exact Hm|intros c Hc; inversion Hc]. Qed.
+
+Lemma consistent_arr id vs : m id = VArr id vs -> Forall consistent vs -> consistent (VArr id vs).
+Proof.
+  intros Hm Hvs. apply consistent_intro; [intros id' [= <-]; exact Hm|].
+  intros c Hc. inversion Hc; subst. rewrite Forall_forall in Hvs. now apply Hvs.
+Qed.
+
+Lemma consistent_hash id es :
+  m id = VHash id es -> Forall (fun en => consistent (fst (fst en)) /\ consistent (snd en)) es ->
+  consistent (VHash id es).
+Proof.
+  intros Hm Hes. apply consistent_intro; [intros id' [= <-]; exact Hm|].
+  intros c Hc. rewrite Forall_forall in Hes. inversion Hc; subst; now apply Hes.
+Qed.
+
+Lemma consistent_sens id x : m id = VSens id x -> consistent x -> consistent (VSens id x).
+Proof.
+  intros Hm Hx. apply consistent_intro; [intros id' [= <-]; exact Hm|].
+  intros c Hc. inversion Hc; subst. exact Hx.
+Qed.
+
+Lemma consistent_obj id ty hint attrs disp :
+  m id = VObj id ty hint attrs disp -> consistent ty -> Forall (fun a => consistent (snd a)) attrs ->
+  consistent (VObj id ty hint attrs disp).
+Proof.
+  intros Hm Hty Hat. apply consistent_intro; [intros id' [= <-]; exact Hm|].
+  intros c Hc. rewrite Forall_forall in Hat. inversion Hc; subst; [exact Hty|now apply Hat].
+Qed.
+
 (* ------------------------------------------------------------------------------------------------ *)
 (* to_data and image with the inner loops as folds *)
 
